@@ -944,6 +944,37 @@ func TestVerifRequestLoop(t *testing.T) {
 		}
 	}
 
+	// ---- XP: the regionserver answers the ESTABLISHER'S PROBE of a region (an existence-only read) with an application
+	// exception - a user who may write but not read, a coprocessor that refuses the read. That says nothing against the region
+	// being online: it is established and the requests go through (reads come back with the application's exception).
+	for _, cls := range []string{"org.apache.hadoop.hbase.security.AccessDeniedException", "org.apache.hadoop.hbase.DoNotRetryIOException", "java.lang.RuntimeException"} {
+		verifsim.Bubble(t, func(t *testing.T) {
+			name := "XP/probe-answered-" + cls[strings.LastIndex(cls, ".")+1:]
+			e := newRLEnv(1, 2)
+			e.cl.Rules = append(e.cl.Rules, func(c *verifsim.Cluster, rs *verifsim.RS, sc *verifsim.ServerConn, req *verifsim.Request, rn []byte) *verifsim.Directive {
+				if verifsim.IsProbe(req) && strings.HasPrefix(string(rn), "t,") {
+					return &verifsim.Directive{Exc: cls, Stack: "at org.apache.hadoop.hbase.Something"}
+				}
+				return nil
+			})
+			p1, p2 := e.goPut("a"), e.goPut("k")
+			time.Sleep(3 * time.Minute)
+			synctest.Wait()
+			e.mu.Lock()
+			for _, cc := range []*rlCall{p1, p2} { // (the probe's answer is how this cluster is: nothing to wait for)
+				if !cc.returned {
+					rep.bad("request-stranded", "%s: put %s is still blocked after 3 virtual minutes on a cluster whose only peculiarity is that the probe read "+
+						"is refused with an application exception", name, cc.id)
+				} else if cc.err != nil {
+					rep.bad("request-failed-by-a-transient-fault", "%s: put %s failed with %v", name, cc.id, cc.err)
+				}
+			}
+			e.mu.Unlock()
+			e.goPut("b")
+			finish(e, name)
+		})
+	}
+
 	// ---- S: seeded fault scripts
 	rng := rand.New(rand.NewSource(seed))
 	for k := 0; k < nrand; k++ {
